@@ -590,6 +590,39 @@ func (g *gen) genCrash(nops int, profile string) {
 		case x < 89:
 			g.add(DBOp{K: "reopen"})
 			g.iters = nil
+		case x < 90 && wIngest && ncrash < 3 && profile != "flushdur":
+			// Recovery of a queue that is more than memtables, followed by a
+			// second crash soon after: an unsynced key, an ingest over it (a
+			// flushable ingest, written to the WAL), a batch of many small
+			// entries (a large batch: its own flushable, sharing a WAL with
+			// what precedes it), a tail for the crash to tear; then a crash,
+			// little or no work, and another crash (or a plain reopen).
+			ncrash += 2
+			k := g.key()
+			v, n := g.val()
+			g.add(DBOp{K: "batch", Mode: "direct", Sub: []DBOp{{K: "set", Key: k, Val: v, VLen: n % 64}}})
+			v, n = g.val()
+			g.add(DBOp{K: "ingest", Sub: []DBOp{{K: "table", Sub: []DBOp{{K: "set", Key: k, Val: v, VLen: n % 64}}}}})
+			big := DBOp{K: "batch", Mode: "commit", Sync: g.r.IntN(3) != 0}
+			for j := 8 + g.r.IntN(24); j > 0; j-- {
+				v, n := g.val()
+				big.Sub = append(big.Sub, DBOp{K: "set", Key: g.key(), Val: v, VLen: n % 32})
+			}
+			g.add(big)
+			for j := g.r.IntN(3); j > 0; j-- {
+				g.add(g.writeOp(rangeKeys))
+			}
+			g.add(DBOp{K: "crashat", N: g.r.IntN(6), Surv: &simfs.Survival{Mode: pick(&g.r, []string{"prefix", "pct", "none"}), Pct: 50, Seed: g.r.Next()}})
+			for j := g.r.IntN(2); j > 0; j-- {
+				g.add(g.writeOp(rangeKeys))
+			}
+			if g.r.IntN(3) == 0 {
+				g.add(DBOp{K: "reopen"})
+			} else {
+				g.add(DBOp{K: "crashat", N: g.r.IntN(4), Surv: g.survival()})
+			}
+			g.add(DBOp{K: "scan"})
+			g.iters = nil
 		case x < 95 && ncrash < 4:
 			ncrash++
 			o := DBOp{K: "crashat", N: g.r.IntN(40), Surv: g.survival()}
